@@ -107,6 +107,14 @@ CLAIMED["C01"] = {
     "technique": "unsafe-site census over the instance call graph + per-site guard/extent obligations + imported premise sets + niche/Freeze/termination/zero censuses",
 }
 
+CLAIMED["C09"] = {
+    "category": "other",
+    "text": "Same scheme as C01 on the parse path of `multiboot2-header` (282 instances, 19 unsafe sites, all in instantiated multiboot2-common code or the `unsafe fn load`): every site matched to the site table with premises re-decided (imports C14, C15, C05), the TagIter transition premises for the header-tag iterator (H = HeaderTagHeader, payload from byte 16), who-calls TagIter::new, NICHE with the five enumerated fields as the statement's stated assumptions (any other restricted field is a violation), acyclic call graph / loop table, zero-census.",
+    "design_ref": "DESIGN.md §4 C09",
+    "note": TB + "; enumerated fields assumed to hold defined values (hypothesis of the property; see C08 known findings); adequacy of the hand proofs not decided",
+    "technique": "unsafe-site census over the instance call graph + imported premise sets + iterator transition terms + niche census with an assumption table",
+}
+
 PENDING = "check not yet built in this session (machinery under construction; see DESIGN.md §9 build order) - not claimed until its premises run, pass on the repaired tree and fire on seeded breaks"
 NOT_APPLICABLE = {("C%02d" % i): PENDING for i in range(1, 21)}
 
